@@ -324,8 +324,10 @@ impl Mp4Track {
         if self.trak.mdia.minf.stbl.stco.is_none() && self.trak.mdia.minf.stbl.co64.is_none() {
             return Err(Error::InvalidData("must have either stco or co64 boxes"));
         }
+        // chunk ids are 1-based; id 0 (an stsc entry with first_chunk == 0) names no chunk
+        let chunk_index = (chunk_id as usize).wrapping_sub(1);
         if let Some(ref stco) = self.trak.mdia.minf.stbl.stco {
-            if let Some(offset) = stco.entries.get(chunk_id as usize - 1) {
+            if let Some(offset) = stco.entries.get(chunk_index) {
                 return Ok(*offset as u64);
             } else {
                 return Err(Error::EntryInStblNotFound(
@@ -335,7 +337,7 @@ impl Mp4Track {
                 ));
             }
         } else if let Some(ref co64) = self.trak.mdia.minf.stbl.co64 {
-            if let Some(offset) = co64.entries.get(chunk_id as usize - 1) {
+            if let Some(offset) = co64.entries.get(chunk_index) {
                 return Ok(*offset);
             } else {
                 return Err(Error::EntryInStblNotFound(
